@@ -584,6 +584,14 @@ class HttpProxyPlugin(HttpProtocolHandlerPlugin):
             )
         self.pipeline_response.parse(raw)
         if self.pipeline_response.is_complete:
+            # An upgrade offered by a follow-up request only takes effect
+            # when upstream answers 101.  Otherwise the connection stays
+            # HTTP and client data that follows are requests again, not
+            # opaque packets of the upgraded protocol.
+            if self.pipeline_request is not None and \
+                    self.pipeline_request.is_connection_upgrade and \
+                    self.pipeline_response.code != b'101':
+                self.pipeline_request = None
             self.pipeline_response = None
 
     def connect_upstream(self) -> None:
